@@ -1251,6 +1251,12 @@ func c12History(rng *Rng, nSheets int, first string) []string {
 	}
 	var h []string
 	h = append(h, tok(first))
+	if first == "getnum" {
+		// forced (no rng draw): numeric-only read of the spilled table (empty placeholder cached, no index file),
+		// then the first string write (sharedStringsLoader promotes and must reset File.SharedStrings), then a
+		// string read; the history's save + the reopen of the saved file follow
+		h = append(h, "setstr.0", "getstr.0")
+	}
 	n := rng.Range(1, 5)
 	for i := 0; i < n; i++ {
 		h = append(h, tok(c12Kinds[rng.Intn(len(c12Kinds)-1)]))
